@@ -655,6 +655,8 @@ class Interp:
     def exec_while(self, s, env, g, fn):
         key = self.loop_key(s, fn)
         spec = self.loopspecs.get(key)
+        if spec is not None and getattr(spec, "opt_in", False) and not self.limits.get("inductive_loops"):
+            spec = None  # inductive contracts are used by the harnesses that ask for them; elsewhere the loop is unrolled
         if spec is not None:
             return spec.run_while(self, s, env, g, fn, key)
         n = 0
